@@ -212,6 +212,12 @@ class Interp:
                 import cubed
                 return cubed.map_blocks(_mul, w, a[0], dtype=a[0].dtype, chunks=a[0].chunks)
             return w * a[0]
+        if op == "sumsq_red":      # core `reduction` whose per-chunk `func` only MAPS (squares); combine_func does the reducing
+            if self.is_cubed:
+                from cubed.core.ops import reduction
+                ax = kw.get("axis")
+                return reduction(a[0], _sq_map, combine_func=_sum_comb, axis=ax, dtype=a[0].dtype, keepdims=kw.get("keepdims", False))
+            return np.sum(a[0] * a[0], axis=kw.get("axis"), keepdims=kw.get("keepdims", False), dtype=a[0].dtype)
         if op == "split_sum":      # reduction with explicit split_every (cubed extension)
             se = kw.pop("split_every", None)
             if self.is_cubed:
@@ -298,7 +304,15 @@ def gen_program(rng, max_steps=5, allow=None, dtypes=("int64", "int64", "int32",
 UNARY = ["negative", "abs", "square", "positive"]
 BINARY = ["add", "subtract", "multiply", "maximum", "minimum", "lincomb"]
 CMP = ["less", "equal", "greater_equal", "not_equal"]
-REDUCE = ["sum", "max", "min", "prod", "mean_sq", "any", "all", "split_sum"]
+REDUCE = ["sum", "max", "min", "prod", "mean_sq", "any", "all", "split_sum", "sumsq_red"]
+
+
+def _sq_map(a, axis=None, keepdims=None):
+    return a * a
+
+
+def _sum_comb(a, axis=None, keepdims=None):
+    return np.sum(a, axis=axis, keepdims=keepdims, dtype=a.dtype)
 ARGRED = ["argmax", "argmin"]
 
 
@@ -392,7 +406,7 @@ def _gen_step(rng, kind, vals):
             return dict(op=rng.choice(ARGRED), args=[i], kw=dict(axis=ax, keepdims=rng.random() < 0.3))
         axes = rng.choice([None] + list(range(nd)) + [list(c) for c in itertools.combinations(range(nd), 2)] + [-1])
         op = rng.choice(REDUCE) if kind == "reduce" else "count_nonzero"
-        if op in ("sum", "prod", "mean_sq", "split_sum") and A(i).dtype.kind == "b":
+        if op in ("sum", "prod", "mean_sq", "split_sum", "sumsq_red") and A(i).dtype.kind == "b":
             op = "any"
         if op in ("max", "min") and A(i).dtype.kind == "b":
             op = "all"
